@@ -985,7 +985,11 @@ def _run_cli_binary(case, ctx):
     older = [i for i in insts if get_db(i["family"], "latest").name != i["revision"]]
     # half of the draws: a revision whose register specification is not the one of the latest revision
     differing = [i for i in older if ad.spec_files(i) != ad.spec_files(dict(i, revision="latest"))]
-    inst = dict(core.pick(ctx.rng, differing if (differing and case["k"] % 2 == 0) else insts))
+    pool = differing if (differing and case["k"] % 2 == 0) else insts
+    if case["k"] % 4 == 2:
+        # every other 'differing' draw is an IFR page (its own command line tool): few of them differ between revisions
+        pool = [i for i in differing if i["sub"] in ("romcfg", "cmactable")] or pool
+    inst = dict(core.pick(ctx.rng, pool))
     inst["_mode"] = "cli-binary"
     outdir = os.path.join(ctx.workdir, f"clibin_{os.getpid()}_{case['k']}")
     os.makedirs(outdir, exist_ok=True)
@@ -1035,6 +1039,10 @@ def _run_cli_binary(case, ctx):
         _viol(ctx, ad, inst, "cli-binary-roundtrip-differs", dict(detail, diff=_first_diff(page, again)))
         return
     parsed_cfg = yaml.safe_load(open(ymlp, encoding="utf-8"))
+    named = parsed_cfg.get("revision")
+    if named is not None and str(named) not in (inst["revision"], "latest" if get_db(inst["family"], "latest").name == inst["revision"] else inst["revision"]):
+        _viol(ctx, ad, inst, "cli-parse-binary-writes-another-revision", dict(detail, written=named, asked=inst["revision"]))
+        return
     ctx.ok(["cli-binary", inst["sub"], "older-revision" if inst in older or get_db(inst["family"], "latest").name != inst["revision"] else "latest"],
            sample={"instance": ad.label(inst), "registers_in_parsed_configuration": len(parsed_cfg.get(ad.settings_key, {}))})
 
